@@ -75,9 +75,30 @@ func execute(caseDir, stdin string, args []string) snap {
 			}
 		}
 		s.Files[rel] = string(b)
+		if strings.HasSuffix(rel, ".gz") {
+			// the compressed bytes are compared, and so is what they decompress to (with the
+			// harness's own reader): the second comparison names the differing line
+			if txt, ok := gunzip(b); ok {
+				s.Files[rel+" [decompressed]"] = txt
+			} else {
+				s.Files[rel+" [decompressed]"] = "(not a readable gzip stream)"
+			}
+		}
 		return nil
 	})
 	return s
+}
+
+func gunzip(b []byte) (string, bool) {
+	g, err := gzip.NewReader(bytes.NewReader(b))
+	if err != nil {
+		return "", false
+	}
+	out, err := io.ReadAll(g)
+	if err != nil {
+		return "", false
+	}
+	return string(out), true
 }
 
 // tarMembers lists the members of an archive: name, size and bytes of every entry, in order
@@ -211,7 +232,7 @@ const orfSeq = "ATGGCTAAAGGTCTGGAACGTATTCCGGATCTGAAAGCTTAA"
 // four characters with the same count), some are constant, gap-heavy or hold N/X
 func tiedAlignment(t *rapid.T, aa bool, nmin, nmax, lmin, lmax int) []gen.Row {
 	n := rapid.IntRange(nmin, nmax).Draw(t, "rows")
-	if rapid.Bool().Draw(t, "evenrows") && n%2 == 1 && n < nmax {
+	if rapid.IntRange(0, 3).Draw(t, "evenrows") != 0 && n%2 == 1 && n < nmax {
 		n++
 	}
 	l := rapid.IntRange(lmin, lmax).Draw(t, "L")
@@ -226,7 +247,7 @@ func tiedAlignment(t *rapid.T, aa bool, nmin, nmax, lmin, lmax int) []gen.Row {
 		col := make([]byte, n)
 		a := letters[rapid.IntRange(0, len(letters)-1).Draw(t, "a")]
 		b := letters[rapid.IntRange(0, len(letters)-1).Draw(t, "b")]
-		switch rapid.IntRange(0, 7).Draw(t, "colkind") {
+		switch rapid.IntRange(0, 10).Draw(t, "colkind") {
 		case 0: // constant
 			for i := range col {
 				col[i] = a
@@ -259,6 +280,16 @@ func tiedAlignment(t *rapid.T, aa bool, nmin, nmax, lmin, lmax int) []gen.Row {
 					col[i] = a
 				}
 			}
+		case 6: // nothing but gaps and wildcards (both cases), in equal numbers when n is even
+			fillGapWild(col, wild)
+		case 7: // gaps only
+			for i := range col {
+				col[i] = '-'
+			}
+		case 8: // wildcards only
+			for i := range col {
+				col[i] = wild
+			}
 		default:
 			for i := range col {
 				col[i] = letters[rapid.IntRange(0, len(letters)-1).Draw(t, "c")]
@@ -282,6 +313,58 @@ func tiedAlignment(t *rapid.T, aa bool, nmin, nmax, lmin, lmax int) []gen.Row {
 		}
 	} else {
 		rows[0].Seq = "A" + rows[0].Seq[1:]
+	}
+	return rows
+}
+
+// fillGapWild: half gaps, half wildcards (upper and lower case alternating)
+func fillGapWild(col []byte, wild byte) {
+	for i := range col {
+		switch {
+		case i%2 == 0:
+			col[i] = '-'
+		case i%4 == 1:
+			col[i] = wild
+		default:
+			col[i] = wild + 32
+		}
+	}
+}
+
+// tiedWithSpecials: a tied alignment with an even number of rows that is guaranteed to hold, after
+// its drawn columns, one column of each special kind: gaps and wildcards in equal numbers, gaps
+// only, wildcards only, a two-way and a four-way letter tie, gaps tied with a letter
+func tiedWithSpecials(t *rapid.T, aa bool) []gen.Row {
+	rows := tiedAlignment(t, aa, 2, 10, 4, 30)
+	if len(rows)%2 == 1 {
+		rows = append(rows, gen.Row{Name: fmt.Sprintf("s%02d", len(rows)), Seq: rows[0].Seq})
+	}
+	n := len(rows)
+	letters, wild := "ACGT", byte('N')
+	if aa {
+		letters, wild = "ARND", 'X'
+	}
+	extra := make([][]byte, 6)
+	for k := range extra {
+		extra[k] = make([]byte, n)
+	}
+	fillGapWild(extra[0], wild)
+	for i := 0; i < n; i++ {
+		extra[1][i] = '-'
+		extra[2][i] = wild
+		extra[3][i] = letters[i%2]
+		extra[4][i] = letters[i%4]
+		if i%2 == 0 {
+			extra[5][i] = '-'
+		} else {
+			extra[5][i] = letters[2]
+		}
+	}
+	// drawn order of the special columns
+	for _, k := range gen.Perm(t, len(extra), "specials") {
+		for i := range rows {
+			rows[i].Seq += string(extra[k][i])
+		}
 	}
 	return rows
 }
@@ -345,6 +428,20 @@ func (x *ctx) opt(i int, flags ...interface{}) []string {
 	return nil
 }
 
+// opt2: two independent on/off flags driven by one knob, so that knob, knob+1, knob+2, knob+3
+// run the four combinations
+func (x *ctx) opt2(i int, a, b string) []string {
+	var out []string
+	k := x.k(i, 4)
+	if k&1 == 1 {
+		out = append(out, a)
+	}
+	if k&2 == 2 {
+		out = append(out, b)
+	}
+	return out
+}
+
 func cat(parts ...interface{}) []string {
 	var out []string
 	for _, p := range parts {
@@ -366,8 +463,12 @@ func frac(k int) string { return []string{"0", "0.1", "0.25", "0.5", "0.75", "1"
 
 type tmpl struct {
 	Name string
+	// Class: name under which the template is counted in the evidence (default: Name); variants of
+	// one command share it
+	Class string
 	// In: kind of input the command is run on: nt | aa | any (nt or aa alignment) | codon (nt
-	// alignment whose length is a multiple of 3) | orf (unaligned nucleotide sequences with an ORF)
+	// alignment whose length is a multiple of 3) | orf (unaligned nucleotide sequences with an ORF) |
+	// tied (even number of rows, guaranteed columns of gaps/wildcards only and tied letters)
 	In string
 	// Random: the command draws from math/rand: it is always run with --seed
 	Random bool
@@ -399,6 +500,10 @@ var templates = []tmpl{
 		return cat("clean", "sites", "-i", x.in, "-c", frac(x.k(0, 6)), "--char", x.pick(1, "GAP", "MAJ", "N", "A", "X"),
 			x.opt(2, "--ends"), x.opt(3, "--ignore-gaps"), x.opt(4, "--ignore-n"), x.opt(5, "--positions", "pos.txt", "--positions-rm", "rm.txt"))
 	}},
+	{Name: "clean sites MAJ", Class: "clean sites", In: "tied", Map: true, Args: func(x *ctx) []string {
+		return cat("clean", "sites", "-i", x.in, "-c", frac(1+x.k(1, 5)), "--char", "MAJ", x.opt2(0, "--ignore-gaps", "--ignore-n"),
+			x.opt(2, "--positions", "pos.txt", "--positions-rm", "rm.txt"))
+	}},
 	{Name: "clean seqs", In: "any", Args: func(x *ctx) []string {
 		return cat("clean", "seqs", "-i", x.in, "-c", frac(x.k(0, 6)), "--char", x.pick(1, "GAP", "N", "A"), x.opt(2, "--ignore-n"), x.opt(3, "--ignore-case"))
 	}},
@@ -425,8 +530,8 @@ var templates = []tmpl{
 	{Name: "compute pssm", In: "any", Map: true, Args: func(x *ctx) []string {
 		return cat("compute", "pssm", "-i", x.in, "-n", x.k(0, 5), "-c", x.pick(1, "0", "0.01", "1"), x.opt(2, "-l"))
 	}},
-	{Name: "consensus", In: "any", Map: true, Args: func(x *ctx) []string {
-		return cat("consensus", "-i", x.in, x.opt(0, "--ignore-gaps"), x.opt(1, "--ignore-n"))
+	{Name: "consensus", In: "tied", Map: true, Args: func(x *ctx) []string {
+		return cat("consensus", "-i", x.in, x.opt2(0, "--ignore-gaps", "--ignore-n"))
 	}},
 	// ---- statistics
 	{Name: "stats", In: "any", Map: true, Args: func(x *ctx) []string { return cat("stats", "-i", x.in) }},
@@ -442,8 +547,8 @@ var templates = []tmpl{
 		return cat("stats", "gaps", "-i", x.in, x.pick(0, "--from-start", "--from-end", "--openning", "--unique"))
 	}},
 	{Name: "stats length", In: "any", Args: func(x *ctx) []string { return cat("stats", "length", "-i", x.in) }},
-	{Name: "stats maxchar", In: "any", Map: true, Args: func(x *ctx) []string {
-		return cat("stats", "maxchar", "-i", x.in, x.opt(0, "--ignore-gaps"), x.opt(1, "--ignore-n"))
+	{Name: "stats maxchar", In: "tied", Map: true, Args: func(x *ctx) []string {
+		return cat("stats", "maxchar", "-i", x.in, x.opt2(0, "--ignore-gaps", "--ignore-n"))
 	}},
 	{Name: "stats mutations", In: "any", Map: true, Args: func(x *ctx) []string {
 		return cat("stats", "mutations", "-i", x.in, "--ref-sequence", x.name(x.k(0, 50)), x.opt(1, "--unique"))
@@ -512,7 +617,7 @@ var templates = []tmpl{
 		return cat("codonalign", "-i", x.file("prot.fa", cli.Fasta(aa)), "-f", x.file("nt.fa", cli.Fasta(nt)))
 	}},
 	// ---- masking, extraction
-	{Name: "mask", In: "any", Map: true, Args: func(x *ctx) []string {
+	{Name: "mask", In: "tied", Map: true, Args: func(x *ctx) []string {
 		a := cat("mask", "-i", x.in)
 		switch x.k(0, 4) {
 		case 0:
@@ -648,13 +753,24 @@ var templates = []tmpl{
 	{Name: "mutate gaps", In: "any", Random: true, Args: func(x *ctx) []string {
 		return cat("mutate", "gaps", "-i", x.in, "-r", frac(1+x.k(0, 5)), "-n", frac(1+x.k(1, 5)))
 	}},
+	// every output mode the command documents: plain files, --gz, --tar, --tar --gz; drawn -o prefix,
+	// -S (order of the sequences shuffled too), -f (partial bootstrap); mostly several replicates
 	{Name: "build seqboot", In: "any", Random: true, Threads: true, Args: func(x *ctx) []string {
-		return cat("build", "seqboot", "-i", x.in, "-n", 1+x.k(0, 6), "-o", "boot", x.opt(1, "-S"), x.opt(2, "-f", "0.6"), x.pick(3, "", "--gz", "--tar", "--tar --gz"))
+		return cat("build", "seqboot", "-i", x.in, "-n", seqbootN(x), "-o", x.pick(4, "boot", "rep_", "b.x"), x.opt(1, "-S"), x.opt(2, "-f", "0.6"))
 	}},
-	{Name: "build seqboot partition", In: "any", Random: true, Threads: true, Args: func(x *ctx) []string {
+	{Name: "build seqboot gz", Class: "build seqboot", In: "any", Random: true, Threads: true, Args: func(x *ctx) []string {
+		return cat("build", "seqboot", "-i", x.in, "-n", seqbootN(x), "-o", x.pick(4, "boot", "rep_", "b.x"), "--gz", x.opt(1, "-S"), x.opt(2, "-f", "0.6"))
+	}},
+	{Name: "build seqboot tar", Class: "build seqboot", In: "any", Random: true, Threads: true, Args: func(x *ctx) []string {
+		return cat("build", "seqboot", "-i", x.in, "-n", seqbootN(x), "-o", x.pick(4, "boot", "rep_", "b.x"), "--tar", x.opt(1, "-S"), x.opt(2, "-f", "0.6"))
+	}},
+	{Name: "build seqboot tar gz", Class: "build seqboot", In: "any", Random: true, Threads: true, Args: func(x *ctx) []string {
+		return cat("build", "seqboot", "-i", x.in, "-n", seqbootN(x), "-o", x.pick(4, "boot", "rep_", "b.x"), "--tar", "--gz", x.opt(1, "-S"), x.opt(2, "-f", "0.6"))
+	}},
+	{Name: "build seqboot partition", Class: "build seqboot", In: "any", Random: true, Threads: true, Args: func(x *ctx) []string {
 		h := x.l() / 2
 		part := fmt.Sprintf("M1,p1=1-%d\nM2,p2=%d-%d\n", h, h+1, x.l())
-		return cat("build", "seqboot", "-i", x.in, "-n", 1+x.k(0, 4), "-o", "boot", "--partition", x.file("parts.txt", part), "--out-partition", "parts_out.txt")
+		return cat("build", "seqboot", "-i", x.in, "-n", seqbootN(x), "-o", "boot", "--partition", x.file("parts.txt", part), "--out-partition", "parts_out.txt", x.pick(3, "", "--gz", "--tar", "--tar --gz"))
 	}},
 	{Name: "build distboot", In: "nt", Random: true, Threads: true, Args: func(x *ctx) []string {
 		return cat("build", "distboot", "-i", x.in, "-n", 1+x.k(0, 6), "-m", ntModels[x.k(1, len(ntModels))], x.opt(2, "-r"), x.opt(3, "-f", "0.6"), x.opt(4, "--alpha", "0.8"))
@@ -665,6 +781,15 @@ var templates = []tmpl{
 	{Name: "random", In: "any", Random: true, Args: func(x *ctx) []string {
 		return cat("random", "-n", 1+x.k(0, 8), "-l", 1+x.k(1, 90), x.opt(2, "-a"), x.pick(3, "", "-p", "-x", "-u"))
 	}},
+}
+
+// seqbootN: number of replicates, 2-7 in five cases out of six (a single replicate hides every
+// mix-up between replicates)
+func seqbootN(x *ctx) int {
+	if x.k(0, 6) == 0 {
+		return 1
+	}
+	return 2 + x.k(5, 6)
 }
 
 func templateByName(name string) *tmpl {
@@ -705,6 +830,11 @@ func genInput(t *rapid.T, kind string) (string, []gen.Row) {
 		return "nt", rows
 	case "orf":
 		return "nt", orfSequences(t, 2, pbt.Scale(12, 40))
+	case "tied":
+		if rapid.IntRange(0, 3).Draw(t, "aa") == 0 {
+			return "aa", tiedWithSpecials(t, true)
+		}
+		return "nt", tiedWithSpecials(t, false)
 	case "any":
 		if rapid.IntRange(0, 3).Draw(t, "aa") == 0 {
 			return "aa", tiedAlignment(t, true, 2, 10, 4, 30)
@@ -837,7 +967,11 @@ func checkSweep(c sweepCase) (o pbt.Outcome, err error) {
 	}
 	o.NonTrivial = !ref.s.empty() && (tp.Random || (tp.Threads && multi) || tp.Map)
 	// (the driver keeps 80 classes per test: one per template plus the five below)
-	o.Class("cmd=%s", c.Cmd)
+	if tp.Class != "" {
+		o.Class("cmd=%s", tp.Class)
+	} else {
+		o.Class("cmd=%s", c.Cmd)
+	}
 	if !c.Seeded {
 		o.Class("run without --seed (command draws nothing)")
 	} else if tp.Random {
@@ -869,10 +1003,10 @@ func envInt(name string, def int) int {
 	return def
 }
 
-// TestEveryTemplate runs every template of the table on generated inputs (two per template in
+// TestEveryTemplate runs every template of the table on generated inputs (four per template in
 // the quick tier, twelve per shard in the thorough tier), so that each command is covered in every
 // run whatever the random sweep drew. The inputs are examples of the same generator, derived from
-// VERIF_SEED and the shard number; cases come in pairs whose knobs differ by one, so that every
+// VERIF_SEED and the shard number; cases come in groups of four whose knobs differ by 0..3, so that every
 // two-valued option of a template is run both with and without it, and the randomised templates
 // take their --seed from the list of special values in turn (each value at least twice per run).
 func TestEveryTemplate(t *testing.T) {
@@ -880,28 +1014,35 @@ func TestEveryTemplate(t *testing.T) {
 		t.Skip("no goalign binary")
 	}
 	seed := envInt("VERIF_SEED", 1)*1000 + envInt("VERIF_SHARD", 0)
-	pairs := pbt.Scale(1, 6)
-	pbt.Enumerate(t, fmt.Sprintf("every command template of the table (%d templates) x %d generated input(s), every on/off option both ways", len(templates), 2*pairs),
+	rounds := pbt.Scale(1, 3)
+	pbt.Enumerate(t, fmt.Sprintf("every command template of the table (%d templates) x %d generated input(s), every on/off option both ways, every option of up to four values", len(templates), 4*rounds),
 		func(yield func(sweepCase) bool) {
 			nrandom := 0
 			for i := range templates {
 				tp := &templates[i]
 				g := rapid.Custom(func(rt *rapid.T) sweepCase { return genSweepFor(rt, tp) })
-				for r := 0; r < pairs; r++ {
-					a := g.Example(seed*100000 + i*10 + 2*r)
-					b := g.Example(seed*100000 + i*10 + 2*r + 1)
-					b.Knobs = append([]int{}, a.Knobs...)
-					for k := range b.Knobs {
-						b.Knobs[k]++
-					}
-					if tp.Random {
-						// the randomised templates go through the special seeds in turn
-						a.Seed = seedSpecials[(seed+nrandom)%len(seedSpecials)]
-						b.Seed = seedSpecials[(seed+nrandom+1)%len(seedSpecials)]
-						nrandom += 2
-					}
-					if !yield(a) || !yield(b) {
-						return
+				for r := 0; r < rounds; r++ {
+					var first sweepCase
+					for v := 0; v < 4; v++ {
+						c := g.Example(seed*100000 + i*100 + 4*r + v)
+						if v == 0 {
+							first = c
+						} else {
+							// same knobs plus v: an on/off option is run both ways, an option of up
+							// to four values (or two on/off options on one knob) every way
+							c.Knobs = append([]int{}, first.Knobs...)
+							for k := range c.Knobs {
+								c.Knobs[k] += v
+							}
+						}
+						if tp.Random {
+							// the randomised templates go through the special seeds in turn
+							c.Seed = seedSpecials[(seed+nrandom)%len(seedSpecials)]
+							nrandom++
+						}
+						if !yield(c) {
+							return
+						}
 					}
 				}
 			}
